@@ -29,11 +29,12 @@ Outcomes(s) ==
     [] ev.e = "destroy"      -> SDestroy(s)
     [] OTHER                 -> {}
 
-Explained(o) == o.r = ev.r /\ Obs(o.s) = ev.s
+GotR == IF ev.e = "destroy" THEN [ev.r EXCEPT !.d = AscSeq(@)] ELSE ev.r
+Explained(o) == o.r = GotR /\ Obs(o.s) = ev.s
 
 Which == LET O == Outcomes(Cur) IN
          IF O = {} THEN "unknown_call"
-         ELSE IF \E o \in O : o.r = ev.r THEN
+         ELSE IF \E o \in O : o.r = GotR THEN
               (IF ev.s.back # Rev(ev.s.ids) THEN "state.backward"
                ELSE IF ev.s.len # Len(ev.s.ids) THEN "state.len"
                ELSE IF \E i \in 1 .. Len(ev.s.keys) - 1 : ev.s.keys[i] > ev.s.keys[i + 1] THEN "state.unsorted"
